@@ -15,7 +15,7 @@ WITNESS = [
     ("sub", "ghost-inject", r"\breturn\s+true\b", "{ proof { assert(vx_grants == 1); }   // #returns_true_only_after_its_own_successful_withdrawal [C08]\n return true }", None),
     ("sub", "ghost-inject", r"\breturn\s+false\b", "{ proof { assert(vx_grants == 0); }   // #returns_false_without_withdrawing [C08]\n return false }", None),
 ]
-MUT = [("sub", "R16-mut-self", r"\bself\b", "self_", None), ("inject", None, "start", "let mut self_ = self;")]
+MUT = [("sub", "R16-mut-self", r"\bself\b", "self_", -1), ("inject", None, "start", "let mut self_ = self;")]
 UNIT = dict(
     serves=["C08", "C13"],
     files={"budget": RT + "budget.rs", "aimd": CORE + "aimd.rs", "alg": AD + "algorithm.rs"},
@@ -80,6 +80,11 @@ UNIT = dict(
         "Aimd::limit@ConcurrencyAlgorithm": dict(file="alg"),
         "AimdController::new": dict(file="aimd", rules=[
             ("sub", "R7-new", r"AtomicUsize::new\(initial\)", "AtomicUsize::new(Ghost(config), initial, Tracked(()))", 1),
+        ]),
+        "AimdController::clone@Clone": dict(file="aimd", rules=[
+            ("sub", "R7-new", r"AtomicUsize::new\(self\.limit\.load\(Ordering::Relaxed\)\)", "AtomicUsize::new(Ghost(self.config), vx_cur, Tracked(()))", 1),
+            ("inject", None, "start", "let vx_cur = self.limit.load(Ordering::Relaxed);"),
+            ("R7", [NOOP]),
         ]),
         "AimdController::limit": dict(file="aimd", rules=[("R7", [NOOP])]),
         "AimdController::record_success": dict(file="aimd", rules=[("R7", LIMIT_ANY)]),
